@@ -10,6 +10,14 @@ NOT_APPLICABLE = {
 
 # id -> (engine, level category, level text, level note, technique, design_ref)
 CHECKS = {
+    "C31": ("World", "exploration",
+            "Network-world simulation of 3-5 replicas with real GroupCrdtState (StrongRemove resolver), unit and totally ordered conditions: members act concurrently while partitioned (create, add, remove, promote, demote, nested groups, weighted conflict scenarios such as the same level with and without a condition), messages travel through per-replica causal buffers with reorder, duplicate, partition / heal, and states occasionally take a CBOR round trip; replicas with equal processed sets, a CBOR-reloaded twin, a canonical replica built on a second thread (different hasher keys) and repeated queries on one replica must all report identical members / root_members with identical access.",
+            "Causal delivery (dependencies first) is provided by the harness, as the stack above the crate guarantees. members() is not called when the harness computes more than 5000 walks through nesting cycles (reported as its own finding instead).",
+            "deterministic simulation with fault injection: concurrent authorship, reordering, duplication, partitions over real group CRDT replicas", "§4 C31"),
+    "C33": ("World", "exploration",
+            "Same world as C31 plus Byzantine authors: any identity emits any action on any target with current or stale dependencies (non-members, removed members, non-managers, forged operations in a manager's name); for every accepted non-create operation an independent verdict is computed (sequential replay of the documented rules when the causal past is a chain, otherwise a canonical replica fed exactly the causal past): the author must be an active manager (or self-removing) and the action valid at the declared dependencies; every reported member must trace back to an accepted create / add.",
+            "Verdicts on states that are themselves order-dependent (C31 finding) are inconclusive and skipped. 'Rejected leaves the replica unchanged' is structural (state passed by value) and additionally compared on CBOR dumps.",
+            "deterministic simulation with fault injection: Byzantine group operations against an independent authorization model", "§4 C31/C33"),
     "C10": ("StepExec", "exploration",
             "Seeded seam-to-seam schedules of 2-5 concurrent writers over the real SqliteStore transaction machinery (Semaphore(1) in begin, commit, rollback, TransactionPermit::drop with its spawned rollback) on a 1-connection in-memory pool and a 4-connection file database; transactions of read-modify-write steps end in commit / rollback / dropped permit or are cancelled at a store-call boundary or while parked in begin(); the committed state read through the pool must equal the fold of the committed transactions in commit order (shared log gap-free, one entry per committed append), aborted transactions leave no trace, and every surviving writer's begin() completes.",
             "TxModel mirrors tokio's FIFO semaphore to classify a Pending begin() exactly (parked vs. waiting for SQLite). Dropping a writer while a pool-level command is in flight (sqlx discards the connection) is outside this check.",
